@@ -10,8 +10,8 @@
    The machine emits one line per action: Open, Content(i), Close.  Properties:
      ContentVerbatim  -- the emitted content lines are the authored lines, in order, each behind the continuation prefix,
      BlankNoTrailing  -- an empty content line carries the right-stripped prefix (no trailing spaces),
-     FenceAdequate    -- the fence is strictly longer than every run of its character that starts a content line,
-                         so no content line can close the block,
+     FenceAdequate    -- the fence is strictly longer than every content line that is nothing but a run of its character,
+                         so no content line can close the block (the machine, like the code, also counts "t3x" lines: more than needed),
      FenceKept        -- fence character kept; length never shorter than authored. *)
 EXTENDS Naturals, Sequences, FiniteSets, TLC, Json
 CONSTANTS MaxLines, Kinds, Paths, TrimTrailingBlank, DoDump
@@ -33,6 +33,9 @@ Legal(b) == /\ (b.fl = 0 => b.fc = "`" /\ b.info = "none" /\ b.lines # <<>> /\ b
             /\ \A j \in 1..Len(b.lines) : ~(b.fl > 0 /\ b.fc = "~" /\ ((b.lines[j] = "w3" /\ b.fl <= 3) \/ (b.lines[j] = "w4" /\ b.fl <= 4)))
 Run(kind, fc) == CASE kind \in {"t3", "t3x", "s3"} /\ fc = "`" -> 3 [] kind = "sw3" /\ fc = "~" -> 3 [] kind = "t4" /\ fc = "`" -> 4 [] kind = "t5" /\ fc = "`" -> 5
                    [] kind = "w3" /\ fc = "~" -> 3 [] kind = "w4" /\ fc = "~" -> 4 [] OTHER -> 0
+\* a content line can close the block only if it is NOTHING BUT a fence run (CommonMark: a closing fence carries no info string):
+\* "t3x" (three backticks followed by text) is counted by the implementation's _min_fence_length but is no danger to the block
+RunClose(kind, fc) == IF kind = "t3x" THEN 0 ELSE Run(kind, fc)
 Max(S) == IF S = {} THEN 0 ELSE CHOOSE x \in S : \A y \in S : y <= x
 \* rstrip("\n") on the content drops trailing blank lines (finding D26) unless TrimTrailingBlank = FALSE
 RECURSIVE DropTrailingBlank(_)
@@ -61,7 +64,7 @@ Emitted == [j \in 1..(Len(outl) - 2) |-> outl[j + 1].k]
 ContentVerbatim == Done => Emitted = blk.lines
 ContentVerbatimK == Done => Emitted = DropTrailingBlank(blk.lines)         \* with the D26 carve-out
 BlankNoTrailing == \A j \in 1..Len(outl) : outl[j].k = "blank" => (outl[j].p = <<>> \/ outl[j].p[Len(outl[j].p)] \notin {"I", "F"})
-FenceAdequate == Done => \A j \in 2..(Len(outl) - 1) : Run(outl[j].k, blk.fc) < OutLen
+FenceAdequate == Done => \A j \in 2..(Len(outl) - 1) : RunClose(outl[j].k, blk.fc) < OutLen
 FenceKept == Done => outl[1].c = blk.fc /\ outl[1].n >= blk.fl /\ outl[Len(outl)].n = outl[1].n /\ outl[1].info = blk.info
 Dump == (Done /\ DoDump) => PrintT(ToJson(<<"K", blk, path, outl>>))
 =============================================================================
